@@ -1,6 +1,7 @@
 SPECIFICATION Spec
 CONSTANTS
   Vals <- Pos3
+  OnlyReversals = FALSE
   MaxLen = 7
   Scale = 1
   LawId = "lin"
